@@ -5,6 +5,7 @@ package main
 // spec/Trace_History.tla and spec/Trace_Fault.tla.
 
 import (
+	"os/exec"
 	"time"
 
 	"crypto/sha1"
@@ -94,6 +95,64 @@ type histQuery struct {
 	src  string
 	typ  rules.RequestType
 	opt  int
+}
+
+type histQueryJSON struct {
+	Kind string   `json:"kind"`
+	Host string   `json:"host"`
+	Dt   uint16   `json:"dt"`
+	Cn   string   `json:"cn"`
+	Cip  string   `json:"cip"`
+	Tags []string `json:"tags"`
+	URL  string   `json:"url"`
+	Src  string   `json:"src"`
+	Typ  uint32   `json:"typ"`
+	Opt  int      `json:"opt"`
+}
+
+func (q *histQuery) toJSON() histQueryJSON {
+	return histQueryJSON{q.kind, q.host, q.dt, q.cn, q.cip, q.tags, q.url, q.src, uint32(q.typ), q.opt}
+}
+
+func (j histQueryJSON) query() *histQuery {
+	return &histQuery{kind: j.Kind, host: j.Host, dt: j.Dt, cn: j.Cn, cip: j.Cip, tags: j.Tags, url: j.URL, src: j.Src, typ: rules.RequestType(j.Typ), opt: j.Opt}
+}
+
+type freshInput struct {
+	Lines   []string        `json:"lines"`
+	Seed    int64           `json:"seed"`
+	Queries []histQueryJSON `json:"queries"`
+	Dir     string          `json:"dir"`
+}
+
+// vh fresh-answers in=<input.json> out=<answers.ndjson>: a NEW PROCESS builds engines on the given lists and answers
+// the queries in the order given; used by drive-history so that state kept anywhere in the process (not only in the
+// engine) cannot make a "fresh" answer agree with a history-dependent one.
+func cmdFreshAnswers(args []string) error {
+	m := argMap(args)
+	ins, err := readND[freshInput](m["in"])
+	if err != nil || len(ins) != 1 {
+		return fmt.Errorf("fresh-answers input: %v", err)
+	}
+	in := ins[0]
+	out, err := newNDWriter(m["out"])
+	if err != nil {
+		return err
+	}
+	defer out.close()
+	st, cleanup, err := makeHistStorage(rand.New(rand.NewSource(in.Seed)), in.Lines, in.Dir, false)
+	if err != nil {
+		return err
+	}
+	defer cleanup()
+	eng := newHistEngines(st)
+	for _, qj := range in.Queries {
+		q := qj.query()
+		a, _, _, _ := eng.run(q)
+		out.write(map[string]string{"q": q.key(), "a": shortDigest(a)})
+	}
+	summary(map[string]any{"answers": out.n})
+	return nil
 }
 
 func (q *histQuery) key() string {
@@ -362,6 +421,8 @@ func cmdDriveHistory(args []string) error {
 		}
 		var results []kept
 		fresh := map[string]bool{}
+		var asked []*histQuery
+		askedSet := map[string]bool{}
 		// the first queries walk the hosts of the list lines in file order, on the cold cache
 		var inOrder []*histQuery
 		for _, ln := range lines {
@@ -420,8 +481,40 @@ func cmdDriveHistory(args []string) error {
 			if len(results) > 50 {
 				results = results[25:]
 			}
+			if !askedSet[q.key()] {
+				askedSet[q.key()] = true
+				asked = append(asked, q)
+			}
 		}
 		cleanup()
+		// every distinct query once more in a NEW PROCESS, in the reverse order of first appearance
+		fin := freshInput{Lines: lines, Seed: seedFresh, Dir: m["dir"]}
+		for i := len(asked) - 1; i >= 0; i-- {
+			fin.Queries = append(fin.Queries, asked[i].toJSON())
+		}
+		inPath := filepath.Join(m["dir"], fmt.Sprintf("fresh-%d-%d.json", os.Getpid(), hnum))
+		outPath := inPath + ".out"
+		w, err := newNDWriter(inPath)
+		if err != nil {
+			return err
+		}
+		w.write(fin)
+		w.close()
+		exe, _ := os.Executable()
+		cmd := exec.Command(exe, "fresh-answers", "in="+inPath, "out="+outPath)
+		cmd.Env = os.Environ()
+		if o, err := cmd.CombinedOutput(); err != nil {
+			return fmt.Errorf("fresh process: %v: %s", err, o)
+		}
+		fa, err := readND[map[string]string](outPath)
+		if err != nil {
+			return err
+		}
+		for _, x := range fa {
+			out.write(map[string]any{"ev": "fresh", "q": x["q"], "a": x["a"], "rid": 0, "k": "process", "h": hnum})
+		}
+		os.Remove(inPath)
+		os.Remove(outPath)
 	}
 	summary(map[string]any{"events": out.n, "queries": queries, "distinct_queries": distinct, "non_empty": nonEmpty, "samples": samples})
 	return nil
@@ -598,6 +691,7 @@ func cmdDriveFault(args []string) error {
 }
 
 func init() {
+	register("fresh-answers", cmdFreshAnswers)
 	register("drive-history", cmdDriveHistory)
 	register("drive-fault", cmdDriveFault)
 }
